@@ -114,15 +114,28 @@ func (ts *Timers) Add(ctx context.Context, id string, message interface{}, in ti
 
 			// Not exactly what we want ...
 		case <-timer.C:
+			// Retire this entry before emitting, and only if
+			// it is still ours: a Rem() that got the lock
+			// first has cancelled this timer (so it must not
+			// fire), and from here on the id is free for
+			// reuse -- also by the handler of the message
+			// we are about to emit.
+			//
+			// See https://github.com/Comcast/sheens/issues/19
+			ts.Lock()
+			current, have := ts.timers[id]
+			if have && current == te {
+				delete(ts.timers, id)
+			}
+			ts.Unlock()
+			if !have || current != te {
+				return
+			}
+
 			Logf("Timers firing %s", JS(ts))
 			if err := ts.emit(ctx, te.Message); err != nil {
 				ts.err(fmt.Errorf("Timers emit error %v id=%s", err, id))
 			}
-
-			// See https://github.com/Comcast/sheens/issues/19
-			ts.Lock()
-			delete(ts.timers, id)
-			ts.Unlock()
 		}
 	}()
 
